@@ -44,7 +44,7 @@ SPEC = {
     "components_real": ["fakesnow/* incl. execute_string", "sqlglot", "duckdb engine (in-memory)"],
     "components_stubbed": ["nothing; three instances side by side in one process"],
     "assumptions": ["the worlds do not interact (separate FakeSnow instances)"],
-    "mandatory_probes": {"any": ["failing_statement", "nop_match", "special_literal", "comment_or_empty", "dict_cursor_class", "variable_in_batch"]},
+    "mandatory_probes": {"any": ["failing_statement", "nop_match", "special_literal", "comment_or_empty", "dict_cursor_class", "variable_in_batch", "return_cursors_false"]},
 }
 
 SPECIALS = ["semi;colon", "it's", 'dq"dq', "dash--dash", "/* not a comment */", "back\\slash", "new\nline", "tab\tin", "ünï©ode ✓", "", " lead and trail ", "%s %d %%", "a;b;c--d"]
@@ -130,7 +130,7 @@ def gen(rng: Any, prop: str, tier: str) -> dict[str, Any]:
                 nop.append(p)
     return {
         "profile": NAME,
-        "config": {"nop": nop, "pre": pre, "hazards": hz, "dict": rng.random() < 0.25, "lead": rng.choice(["", "\n", "-- leading comment\n", "/* lead */ "])},
+        "config": {"nop": nop, "pre": pre, "hazards": hz, "dict": rng.random() < 0.25, "return_cursors": rng.random() >= 0.2, "lead": rng.choice(["", "\n", "-- leading comment\n", "/* lead */ "])},
         "stmts": stmts,
         "glue": glue,
         "ops": [],
@@ -196,8 +196,11 @@ def run(case: dict[str, Any]) -> dict[str, Any]:
         err_a = None
         res_a: list[Any] = []
         try:
-            curs = list(ca.execute_string(text, cursor_class=DictCursor if cfg["dict"] else SnowflakeCursor))
+            rc = cfg.get("return_cursors", True)
+            curs = list(ca.execute_string(text, cursor_class=DictCursor if cfg["dict"] else SnowflakeCursor, return_cursors=rc))
             res_a = [{"rows": norm_rows(c.fetchall()), "rowcount": c.rowcount} for c in curs]
+            if not rc and curs:
+                violation = v_("return-cursors-false-returns-cursors", "return_cursors=False returns no cursors", {"n": len(curs)})
         except BaseException as e:  # noqa: BLE001
             err_a = exc_record(e)
         # world B: one by one
@@ -211,11 +214,16 @@ def run(case: dict[str, Any]) -> dict[str, Any]:
         probes["special_literal"] = sum(1 for s in case["stmts"] if s.get("special"))
         probes["comment_or_empty"] = sum(1 for g in case["glue"][: len(stmts)] if "--" in g or "/*" in g or ";;" in g or "\n;" in g)
         probes["dict_cursor_class"] = 1 if cfg["dict"] else 0
+        probes["return_cursors_false"] = 0 if cfg.get("return_cursors", True) else 1
         probes["variable_in_batch"] = sum(1 for s in case["stmts"] if s["kind"] == "usevar")
         key = lambda e: None if e is None else [e.get("exc"), e.get("errno"), e.get("sqlstate")]  # noqa: E731
-        if (err_a is None) != (err_b is None) or key(err_a) != key(err_b):
+        if violation is not None:
+            pass
+        elif (err_a is None) != (err_b is None) or key(err_a) != key(err_b):
             violation = v_(f"exception-differs/batch={key(err_a)}/single={key(err_b)}", "execute_string must fail exactly where and how one-by-one execution fails",
                            {"text": text, "batch_error": err_a, "one_by_one_error": err_b, "failing_statement": stmts[len(res_b)] if err_b else None})
+        elif not cfg.get("return_cursors", True):
+            pass  # no per-statement results to compare; effects and the exception are compared below
         elif err_a is None and len(res_a) != len(res_b):
             violation = v_("cursor-count", "one cursor per statement, comments and empty statements ignored", {"text": text, "batch_cursors": len(res_a), "statements": len(res_b)})
         elif err_a is None and res_a != res_b:
